@@ -204,8 +204,8 @@ def fixed_histories():
         b.at(0, [{"op": "resolve_hostname", "host": "MyHost.local.", "timeout": to, "ch": b.ch()}])
         b.run_until(40000)
         out.append(b.line())
-    # known finding C13-timeout-late-rerun: the iteration that notices the deadline comes
-    # after a retransmission time that precedes the deadline
+    # former finding C13-timeout-late-rerun (repaired by a4675d4): the iteration that notices the
+    # deadline comes after a retransmission time that precedes the deadline
     b = B("timeout-late")
     b.at(0, [{"op": "set_ip_check_interval", "secs": 0},
              {"op": "resolve_hostname", "host": "MyHost.local.", "timeout": 3001, "ch": b.ch()}])
@@ -467,9 +467,3 @@ def project(case_line, raw):
 
 def nontrivial(line, result):
     return result.count(";") >= 2 and ("+" in result or ":" in result)
-
-
-def known_class(line, impl_result, monitor_result):
-    if monitor_result.startswith("FAIL[late-timeout]"):
-        return "C13-timeout-late-rerun"
-    return None
